@@ -9,6 +9,7 @@
   read of an uninitialised slot) is the `∃ r, … = .ok r` in every statement.  Nothing is assumed of
   the allocator: a refused request is one of the ways a call may fail (leaving everything unchanged).
 -/
+import JsonC.Lemmas.TranslatedCtor
 import JsonC.Lemmas.Arraylist
 import JsonC.Lemmas.TranslatedAl
 
